@@ -2,9 +2,11 @@ package minter
 
 import (
 	"math/big"
+	"time"
 
 	"github.com/MinterTeam/minter-go-node/coreV2/types"
 	abciTypes "github.com/tendermint/tendermint/abci/types"
+	tmproto "github.com/tendermint/tendermint/proto/tendermint/types"
 )
 
 // verifSetStatuses lets the harness choose, per validator, whether the block's
@@ -154,4 +156,78 @@ func verifUpdatesTotal(u *verifBlockU) *big.Int {
 		}
 	}
 	return sum
+}
+
+// verifBeginVotes is BeginBlock with a commit info that mentions only the
+// validators selected by `mention`, each reported as signed or not.
+func verifBeginVotes(u *verifBlockU, height uint64, mention, signed []bool) {
+	var votes []abciTypes.VoteInfo
+	for i, v := range u.bc.stateDeliver.Validators.GetValidators() {
+		if !mention[i] {
+			continue
+		}
+		a := v.GetAddress()
+		votes = append(votes, abciTypes.VoteInfo{Validator: abciTypes.Validator{Address: a[:], Power: 1}, SignedLastBlock: signed[i]})
+	}
+	u.bc.BeginBlock(abciTypes.RequestBeginBlock{
+		Header:         tmproto.Header{Height: int64(height), Time: time.Unix(1704067200+3*3600, 0).UTC()},
+		LastCommitInfo: abciTypes.LastCommitInfo{Votes: votes},
+	})
+}
+
+// C19 (statuses are per block): two consecutive blocks through the real
+// BeginBlock and EndBlock.  In the first one both validators are reported as
+// having signed; in the second one each validator is, by harness choice,
+// reported signed, reported absent, or not mentioned in the commit info at all.
+// Rewards of the second block accrue only to the validators recorded as
+// present in *that* block, pro rata of their stakes.
+func VerifHarness_Block_TwoBlocksStatuses() {
+	u := verifBlockUniverse()
+	bc, st := u.bc, u.bc.stateDeliver
+	const H = 1001
+	reward := verifBigNN("reward")
+	st.App.SetReward(reward, reward)
+	// far from the emission cap (the cap logic is C28's subject)
+	bc.appDB.SetEmission(big.NewInt(1000))
+	verifAssume(reward.Cmp(new(big.Int).Exp(big.NewInt(10), big.NewInt(24), nil)) <= 0)
+	vals := st.Validators.GetValidators()
+	all := make([]bool, len(vals))
+	for i := range all {
+		all[i] = true
+	}
+	verifBeginVotes(u, H, all, all)
+	bc.EndBlock(abciTypes.RequestEndBlock{Height: H})
+
+	mention := make([]bool, len(vals))
+	signed := make([]bool, len(vals))
+	for i := range vals {
+		switch verifChoice("second."+string(rune('1'+i)), 3) {
+		case 0:
+			mention[i], signed[i] = true, true
+		case 1:
+			mention[i], signed[i] = true, false
+		}
+	}
+	verifBeginVotes(u, H+1, mention, signed)
+	fees := verifBigNN("fees")
+	bc.rewards.Set(fees)
+	var acc0 []*big.Int
+	total := big.NewInt(0)
+	for i, v := range vals {
+		acc0 = append(acc0, new(big.Int).Set(v.GetAccumReward()))
+		if signed[i] && !v.IsToDrop() {
+			total.Add(total, v.GetTotalBipStake())
+		}
+	}
+	bc.EndBlock(abciTypes.RequestEndBlock{Height: H + 1})
+	pot := new(big.Int).Add(fees, reward)
+	for i, v := range vals {
+		got := new(big.Int).Sub(v.GetAccumReward(), acc0[i])
+		if signed[i] && !v.IsToDrop() && total.Sign() > 0 {
+			want := new(big.Int).Div(new(big.Int).Mul(pot, v.GetTotalBipStake()), total)
+			verifAssert("C19:present-accrues-pro-rata", got.Cmp(want) == 0)
+		} else {
+			verifAssert("C19:not-present-accrues-nothing", got.Sign() == 0)
+		}
+	}
 }
